@@ -30,6 +30,20 @@ func c12(c *q.Ctx) {
 	la.GuardedElems("UtxoVM.BalanceCache", "UtxoVM.mutexBalance", "LRUCache.Get", 2)
 	la.GuardedBy("Meta.Meta", "Meta.MutexMeta", ctor, 8)
 	la.GuardedBy("Meta.MetaTmp", "Meta.MutexMeta", ctor, 8)
+	// the tip pointer: decisions of block play and walk that depend on it (PreHash == tip, the walk's start) are taken
+	// under the exclusive state lock - a check hoisted in front of the lock is check-then-act on the tip (two plays of
+	// sibling blocks both pass it). Frozen exemptions, each read and judged:
+	tipExempt := map[string]string{}
+	for k, v := range ctor {
+		tipExempt[k] = v
+	}
+	tipExempt[st+"NewState"] = "constructor: the object is not shared yet"
+	for _, g := range []string{"GetLatestBlockid", "GetMeta", "GetTipSnapshot", "GetTipXMSnapshotReader"} {
+		tipExempt[st+"(*State)."+g] = "read API that reports the tip without the state lock (an unsynchronised read of the pinned tree; not an admission decision, not decided here)"
+	}
+	tipExempt[st+"(*State).PlayForMiner"] = "tests PreHash == tip before taking the lock; its only caller is the miner, which serialises mining and synchronisation with its own mutex"
+	tipExempt[st+"(*State).Walk"] = "log line before the lock; the walk's decisions read the tip after Lock()"
+	la.GuardedBy("State.latestBlockid", "UtxoVM.Mutex", tipExempt, 5)
 	la.Order()
 
 	ds := c.Fn(st + "(*State).doTxSync")
@@ -53,6 +67,18 @@ func c12(c *q.Ctx) {
 	if f := c.Fn(st + "(*State).PlayAndRepost"); f != nil {
 		la.HeldAtCalls(f, "State.processUnconfirmTxs", "UtxoVM.Mutex", true, "pool conflict resolution runs under the exclusive lock")
 	}
+	// the snapshot of the pool that a block play or a walk resolves conflicts against is taken under the exclusive
+	// lock: a submission that is past its shared lock but not yet published would otherwise be missed
+	nSort := 0
+	for _, name := range []string{"PlayAndRepost", "processUnconfirmTxs", "RollBackUnconfirmedTx", "Walk"} {
+		f := c.P.Funcs[st+"(*State)."+name]
+		if f == nil || len(q.CallsIn(f, "Tx.SortUnconfirmedTx")) == 0 {
+			continue
+		}
+		nSort += len(q.CallsIn(f, "Tx.SortUnconfirmedTx"))
+		la.HeldAtCalls(f, "Tx.SortUnconfirmedTx", "UtxoVM.Mutex", true, "the pool snapshot is taken while submissions are excluded")
+	}
+	c.Floor("K8b", st+"(*State).processUnconfirmTxs", "pool snapshots of block play and walk", nSort, 2)
 	if f := c.Fn(st + "(*State).Walk"); f != nil {
 		for _, spec := range []string{"State.RollBackUnconfirmedTx", "State.procUndoBlkForWalk", "State.procTodoBlkForWalk"} {
 			la.HeldAtCalls(f, spec, "UtxoVM.Mutex", true, "a walk excludes every pool submission")
